@@ -22,6 +22,8 @@ class VSock:
 		self.closed = False
 		self.rx_count = 0
 		self.trunc_count = 0
+		self.peer = None            # set by connect(): a connected UDP socket
+		self.icmp_error = False     # a datagram of a connected socket hit a port nobody listens on
 
 	# --- socket API used by udp_link / data_if / ctrl_if ---
 	def setsockopt(self, *a):
@@ -61,7 +63,29 @@ class VSock:
 		self.net.deliver(self, bytes(data), (remote[0], remote[1]))
 		return len(data)
 
+	def connect(self, remote):
+		""" UDP connect(): fixes the destination, filters the source - and makes the kernel report
+		    ICMP port-unreachable on a later call (Linux semantics). """
+		self.peer = (remote[0], remote[1])
+		if self.addr is None:
+			self.bind(("127.0.0.1", 0))
+
+	def send(self, data):
+		if self.peer is None:
+			raise OSError(89, "Destination address required")
+		if self.icmp_error:
+			self.icmp_error = False
+			raise ConnectionRefusedError(111, "Connection refused")
+		n = self.sendto(data, self.peer)
+		return n
+
+	def recv(self, n):
+		return self.recvfrom(n)[0]
+
 	def recvfrom(self, n):
+		if self.peer is not None and self.icmp_error:
+			self.icmp_error = False
+			raise ConnectionRefusedError(111, "Connection refused")
 		with self.net.cond:
 			if not self.q:
 				raise BlockingIOError(11, "Resource temporarily unavailable")
@@ -119,6 +143,8 @@ class Net:
 				self.log.append((self.seq, src, dst, data, s is not None))
 			if s is None:
 				self.lost += 1
+				if src_sock.peer is not None:
+					src_sock.icmp_error = True       # reported by the next call on that socket
 			else:
 				s.q.append((data, src))
 				self.cond.notify_all()
